@@ -6,6 +6,7 @@ import (
 	"strings"
 
 	"github.com/bilibili/gengine/builder"
+	"github.com/bilibili/gengine/context"
 	"github.com/bilibili/gengine/engine"
 	"github.com/bilibili/gengine/verifrt/vsched"
 
@@ -39,6 +40,13 @@ type modelCfg struct {
 	// Arrive: build the set by a full build of rule Arrive[0] followed by one incremental build per
 	// further index (nil = one full build of the whole text)
 	Arrive []int `json:"arrive,omitempty"`
+	// Groups: full build of the rules Groups[0], then ONE incremental build per further group carrying
+	// all rules of that group in one text; Env = the map-iteration choices taken inside those builds
+	Groups [][]int `json:"groups,omitempty"`
+	Env    []int32 `json:"env,omitempty"`
+	// Pre: saliences the rules of Groups[0] are first built with (a later group re-submits them with
+	// their final salience), nil = final saliences
+	Pre []int64 `json:"pre,omitempty"`
 	// Resal: after building, incrementally re-submit rule Resal[0] with the salience it has in Rules
 	// (the set was first built with salience Resal[1] for it)
 	Resal []int64 `json:"resal,omitempty"`
@@ -133,8 +141,42 @@ func (c modelCfg) build() *builder.RuleBuilder {
 	return rb
 }
 
+// buildGroups performs the grouped build (used under hx.EnvRuns so that every map-iteration order
+// inside the builds is enumerated).
+func (c modelCfg) buildGroups() *builder.RuleBuilder {
+	specs := c.specs()
+	text := func(g []int, pre bool) string {
+		var sb strings.Builder
+		for _, i := range g {
+			sp := specs[i]
+			if pre && c.Pre != nil {
+				sp.Salience, sp.NoSal = c.Pre[i], false
+			}
+			sb.WriteString(sp.Text())
+		}
+		return sb.String()
+	}
+	rb := builder.NewRuleBuilder(context.NewDataContext())
+	if err := rb.BuildRuleFromString(text(c.Groups[0], true)); err != nil {
+		vsched.InternalError("grouped build failed: %v", err)
+	}
+	for _, g := range c.Groups[1:] {
+		if err := rb.BuildRuleWithIncremental(text(g, false)); err != nil {
+			vsched.InternalError("grouped incremental build failed: %v", err)
+		}
+	}
+	return rb
+}
+
 func modelScenario(cfg modelCfg) *hx.Scenario {
-	src := cfg.build()
+	return modelScenarioWith(cfg, nil)
+}
+
+func modelScenarioWith(cfg modelCfg, prebuilt *builder.RuleBuilder) *hx.Scenario {
+	src := prebuilt
+	if src == nil {
+		src = cfg.build()
+	}
 	m := gx.ModelByName(cfg.Model)
 	if m == nil {
 		vsched.InternalError("unknown model %s", cfg.Model)
@@ -161,9 +203,15 @@ func modelScenario(cfg modelCfg) *hx.Scenario {
 			return m.Call(g, rb, gx.Params{B: cfg.B, N: cfg.N, M: cfg.M, Names: cfg.Names, Stag: stag})
 		})
 	}
+	horizon := 0
+	if cfg.Prop == "C09" {
+		// an endless loop legitimately takes 10000 iterations x ~15 scheduling points, twice
+		horizon = 3000000
+	}
 	return &hx.Scenario{
 		Name: "model",
 		Cfg:  cfg,
+		Opts: vsched.Options{Horizon: horizon},
 		New: func() interface{} {
 			return &st{modelState: modelState{log: &gx.Log{}, log2: &gx.Log{}}, cnt: &Counters{}, cnt2: &Counters{}}
 		},
